@@ -225,7 +225,7 @@ func DischargeAll(obls []*Obligation, covers []*Cover, o DischargeOpts) (res []*
 			if raw {
 				// hand-written lemma scripts (bit-vector / floating-point facts): bit-blasting is CPU-bound and not
 				// seed-sensitive, two solvers are enough
-				st, solver, t, all, dis = dischargeWith(rawSolvers, j.r.File, 3*limit, o.Race)
+				st, solver, t, all, dis = dischargeWith(rawSolvers, j.r.File, 9*limit, o.Race)
 			} else {
 				st, solver, t, all, dis = discharge(j.r.File, limit, o.Race)
 			}
